@@ -220,6 +220,12 @@ func isErrReply(r simkv.Reply) bool {
 		if v.Kind != 'e' {
 			return false
 		}
+		// the 4 s proposal deadline passed while the entry was being applied (a 10000-value
+		// JSON.ARRAPPEND takes that long on a loaded machine): the write has an unknown outcome for
+		// the client, it did not fail - the fake raft has applied it, so the twin gets it too
+		if strings.Contains(v.S, "context deadline exceeded") {
+			return false
+		}
 	}
 	return true
 }
